@@ -149,9 +149,11 @@ pub fn quote_decode_into(
 	let mut decode_fields = Vec::new();
 	let mut sizes = Vec::new();
 	let mut non_zst_field_count = Vec::new();
-	for field in fields {
+	let mut guards = Vec::new();
+	for (i, field) in fields.iter().enumerate() {
 		let field_type = &field.ty;
-		decode_fields.push(quote! {{
+		let guard = quote::format_ident!("__codec_guard_edqy_{}", i);
+		decode_fields.push(quote! { let #guard = {
 			let dst_: &mut ::core::mem::MaybeUninit<Self> = dst_; // To make sure the type is what we expect.
 
 			// Here we cast `&mut MaybeUninit<Self>` into a `&mut MaybeUninit<#field_type>`.
@@ -162,7 +164,11 @@ pub fn quote_decode_into(
 				&mut *dst_.as_mut_ptr().cast::<::core::mem::MaybeUninit<#field_type>>()
 			};
 			<#field_type as #crate_path::Decode>::decode_into(#input, dst_)?;
-		}});
+
+			// If a later field fails to decode (or panics) this field has to be dropped again.
+			__CodecDropGuardEdqy::<#field_type>(dst_.as_mut_ptr())
+		}; });
+		guards.push(guard);
 
 		if !sizes.is_empty() {
 			sizes.push(quote! { + });
@@ -181,7 +187,18 @@ pub fn quote_decode_into(
 		::core::assert_eq!(#(#sizes)*, ::core::mem::size_of::<Self>());
 		::core::assert!(#(#non_zst_field_count)* <= 1);
 
+		struct __CodecDropGuardEdqy<T>(*mut T);
+		impl<T> ::core::ops::Drop for __CodecDropGuardEdqy<T> {
+			fn drop(&mut self) {
+				// SAFETY: The guard is only created after the field was successfully decoded in place.
+				unsafe { ::core::ptr::drop_in_place(self.0) }
+			}
+		}
+
 		#(#decode_fields)*
+
+		// Everything was decoded, so disarm the guards.
+		#( ::core::mem::forget(#guards); )*
 
 		// SAFETY: We've successfully called `decode_into` for all of the fields.
 		unsafe { ::core::result::Result::Ok(#crate_path::DecodeFinished::assert_decoding_finished()) }
